@@ -10,7 +10,8 @@
    against the implementation. *)
 From Coq Require Import Reals List ZArith Bool.
 From Coquelicot Require Import Complex.
-From AL Require Import Base.CaseLib C12.Model C12.Spec C12.ModelR C12.Check C12.Proofs C12.ProofsT C12.ProofsH C12.ProofsR C12.ProofsQ.
+From AL Require Import Base.CaseLib C12.Model C12.Spec C12.ModelR C12.Check C12.Proofs C12.ProofsT C12.ProofsH C12.ProofsR C12.ProofsQ C12.ProofsC07 C12.ProofsC04.
+From AL Require C07.Model C04.Model.
 Import ListNotations.
 
 (* the sums of the statement, spelled out *)
@@ -245,6 +246,41 @@ Theorem C12_hist_calls_independent : forall w xs imp ops f i o,
             (fold_left (hop_edit CR_ops) (filter (fun o => negb (is_call o)) (firstn i ops)) f) w xs imp o).
 Proof. exact R_hist_calls_independent. Qed.
 Print Assumptions C12_hist_calls_independent.
+
+(* ---- the tie between models: on rationals (the instance Qc_ops of the generic model) ---- *)
+(* Poly([a0, a1, ...])(v): the evaluation scheme of C12.Model (empty polynomial, x = 0, Horner with
+   merged steps, general sum of powers) is the same function as C07.Model.peval, the model that C07's
+   correspondence ties to the real Poly *)
+Theorem C12_eval_scheme_is_c07 : forall l v,
+  peval Qc_ops (poly_of_list Qc_ops l) v
+  = AL.C07.Model.peval AL.C07.Model.HAuto (AL.C07.Model.poly_of_list l) v.
+Proof. exact eval_scheme_is_c07. Qed.
+Print Assumptions C12_eval_scheme_is_c07.
+
+(* construction from a list (zero compaction), __getitem__ and value ** int agree as well *)
+Theorem C12_poly_functions_are_c07 :
+  (forall l, poly_of_list Qc_ops l = AL.C07.Model.poly_of_list l) /\
+  (forall p k, pget Qc_ops p k = AL.C07.Model.coefn p k) /\
+  (forall v n, cpowz Qc_ops v n = AL.C07.Model.qpow v n).
+Proof. exact (conj poly_of_list_c07 (conj pget_c07 cpowz_qpow)). Qed.
+Print Assumptions C12_poly_functions_are_c07.
+
+(* ... and on the polynomials a LinearFilter stores after its power normalisation *)
+Theorem C12_eval_scheme_is_c07_filter : forall b a f v, lf_make Qc_ops b a = Some f ->
+  peval Qc_ops (fst f) v = AL.C07.Model.peval AL.C07.Model.HAuto (fst f) v /\
+  peval Qc_ops (snd f) v = AL.C07.Model.peval AL.C07.Model.HAuto (snd f) v.
+Proof. exact eval_scheme_is_c07_filter. Qed.
+Print Assumptions C12_eval_scheme_is_c07_filter.
+
+(* list(ZFilter(b, [a0])(xs, zero=zero)): the FIR run of C12.Model is C04.Model.run_filter (code generator
+   + interpreter of the generated program); an all-zero denominator gives no filter in either model *)
+Theorem C12_fir_run_is_c04 : forall b a0 zero xs,
+  (a0 <> c0 Qc_ops -> exists f ys, lf_make Qc_ops b [a0] = Some f /\ fir_run Qc_ops f zero xs = Some ys /\
+     AL.C04.Model.run_filter b [a0] AL.C04.Model.MNone zero xs = AL.C04.Model.Ok ys) /\
+  (lf_make Qc_ops b [c0 Qc_ops] = None /\
+   AL.C04.Model.run_filter b [c0 Qc_ops] AL.C04.Model.MNone zero xs = AL.C04.Model.Err AL.C04.Model.EmptyDen).
+Proof. intros b a0 zero xs. exact (conj (fir_run_is_c04 b a0 zero xs) (fir_zero_den_is_c04 b zero xs)). Qed.
+Print Assumptions C12_fir_run_is_c04.
 
 (* non-vacuity: 1 + z^-1 satisfies every hypothesis above at every frequency *)
 Example C12_example_nonvacuous : forall w, exists f ys h,
